@@ -290,7 +290,61 @@ def rule_adder(ctx):
         r.violation(key, C.loc(f, pows[0]) if pows else f.loc, "a mantissa is rescaled by a "
                     "power of ten that is not bounded by 1 (exponent difference taken against "
                     "something other than the common maximum), or one term is not rescaled")
+    # F18: C19-SCALE establishes that an exactly-zero result carries the exponent -inf; two such
+    # terms meet here (two vanishing slices) and `own - max` is -inf - -inf = nan.  The powers must
+    # be dominated by a test that takes the all-zero case out.
+    key = ctx.key(f, "C19-ADDER", "zero-pair")
+    if pows and is_max and ename:
+        fl = ctx.flow(f)
+        cfg = fl.cfg
+        guards = []
+        for tn in cfg.nodes:
+            if tn.kind != "test" or not isinstance(tn.ast, ast.If):
+                continue
+            t = tn.ast.test
+            names = {x.id for x in ast.walk(t) if isinstance(x, ast.Name)}
+            mentions = ename in names or len({x for x in names}) >= 2
+            infy = any(_is_neg_inf(x) for x in ast.walk(t)) or any(
+                isinstance(x, ast.Call) and (dotted(x.func) or "").split(".")[-1] in ("isinf", "isfinite")
+                for x in ast.walk(t))
+            if mentions and infy:
+                guards.append(tn)
+        pn = cfg.containing(pows[0], f.module.parents)
+        ok = False
+        for g in guards:
+            body_succ = [x for x in cfg.succ[g.id] if cfg.branch.get((g.id, x)) is True]
+            # the guarded (all-zero) branch must not reach the powers
+            t = g.ast.test
+            neg = isinstance(t, ast.UnaryOp) and isinstance(t.op, ast.Not) or any(
+                isinstance(c, ast.Compare) and isinstance(c.ops[0], (ast.NotEq, ast.Gt)) for c in ast.walk(t)) \
+                or any(isinstance(x, ast.Call) and (dotted(x.func) or "").endswith("isfinite") for x in ast.walk(t))
+            zero_branch = [x for x in cfg.succ[g.id] if x not in body_succ] if neg else body_succ
+            if cfg.dominates(g.id, pn.id) and all(pn.id not in cfg.reachable(z) for z in zero_branch):
+                ok = True
+        if ok:
+            r.ok(key, C.loc(f, guards[0].ast), "two exactly-zero terms (exponent -inf) are added without "
+                 "forming 10 ** (-inf - -inf)")
+        else:
+            r.violation(key, C.loc(f, pows[0]), "two exactly-zero terms (both exponents -inf, the sentinel "
+                        "C19-SCALE requires) reach `10 ** (own - max)` = 10 ** nan: the running sum turns "
+                        "nan and stays nan although later slices are non-zero")
     return r
+
+
+def _is_neg_inf(x):
+    if isinstance(x, ast.UnaryOp) and isinstance(x.op, ast.USub):
+        v = x.operand
+        if isinstance(v, ast.Call) and dotted(v.func) == "float" and v.args and \
+                isinstance(v.args[0], ast.Constant) and str(v.args[0].value).lstrip("+") in ("inf", "infinity"):
+            return True
+        if (dotted(v) or "").split(".")[-1] in ("inf", "infty", "Inf", "INF"):
+            return True
+    if isinstance(x, ast.Call) and dotted(x.func) == "float" and x.args and isinstance(x.args[0], ast.Constant) \
+            and str(x.args[0].value) in ("-inf", "-infinity"):
+        return True
+    if isinstance(x, ast.Name) and x.id.upper() in ("NEG_INF", "NEGINF", "MINUS_INF"):
+        return True
+    return False
 
 
 def _prev_sibling(func, st):
